@@ -7,7 +7,7 @@
      cons l1..l4 m1..m4 <d> <th>     -> 4 floats
      jac l1..l4 <d> <th>             -> 16 floats (row major)
      init a1 b1 a2 b2                -> 4 floats
-     chol <16 floats row major> r1..r4 -> N | S x1..x4
+     chol <16 floats row major> r1..r4 -> N margin | S margin x1..x4
      newton maxiter depth atol m1..m4 g1..g4 <d> <th>
                                      -> status iters l1..l4 margin  <dist list>
      entry variant <dirs_deg> a1 b1 a2 b2   (nan = None)
@@ -58,8 +58,9 @@ let handle cmd =
   | "chol" ->
       let a = Array.init 16 (fun _ -> rd_float ()) in
       let r = rd4 () in
-      (match fst (chol_solve (fun m n -> a.(4 * int_of_nat m + int_of_nat n)) r) with
-       | None -> "N" | Some x -> "S " ^ p4 x)
+      let (sol, lg) = chol_solve (fun m n -> a.(4 * int_of_nat m + int_of_nat n)) r in
+      (match sol with
+       | None -> "N " ^ pf (margin lg) | Some x -> "S " ^ pf (margin lg) ^ " " ^ p4 x)
   | "newton" ->
       let mi = rd_nat () in let dp = rd_nat () in let atol = rd_float () in
       let m = rd4 () in let g = rd4 () in let d = rd_list rd_float in let th = rd_list rd_float in
@@ -74,6 +75,14 @@ let handle cmd =
        | EDist dd -> "D " ^ plist pof dd
        | EUnmodelled -> "U"
        | ERaises -> "R")
+  | "entryn" ->
+      let dirs = rd_list rd_float in
+      let m = rd4 () in
+      let th = to_rad dirs in let d = incr_newton th in
+      let g = initial_value m.q1 m.q2 m.q3 m.q4 in
+      if Float.is_nan (m.q1 +. m.q2 +. m.q3 +. m.q4) then "nan 0 nan nan nan nan inf" else
+      let (((st, it), lg), iters) = newton (nat_of_int 100) (nat_of_int 8) 0.01 m g d th in
+      String.concat " " [status_s st; pnat iters; p4 it; pf (margin lg)]
   | "rt" ->
       let e = rd_list rd_float in
       let rows = rd_list (fun () -> rd_list rd_float) in
